@@ -583,7 +583,7 @@ func VerifyFunc(ctx *Ctx, fn *ssa.Function, fc *FuncContract, safety, canaries b
 		}()
 		return ex
 	}
-	if os.Getenv("GCV_MEMO") == "" {
+	if os.Getenv("GCV_MEMO") == "" && !(fc != nil && fc.Merge) {
 		if ex = run(false); !ex.capHit {
 			return ex
 		}
